@@ -89,3 +89,25 @@ Proof.
 Qed.
 
 Example digit_key_example : digit_key [57; 48; 49]%N. Proof. split; reflexivity. Qed.
+
+(* the key hypothesis holds for every expression the parser produced *)
+From Ahb Require Import Proofs.C01_atoms.
+Lemma eatoms_embed_keys e : eatoms (embed e) = map (fun k => AKey k) (keys_of e).
+Proof. induction e as [k|b l IHl r IHr]; simpl; [reflexivity|]. now rewrite IHl, IHr, map_app. Qed.
+Lemma parsed_keys_are_digit_keys l its (e : kexpr) :
+  Forall (fun p : text * ptok => all_ws (fst p) = true /\ ptok_ok (snd p) = true) l ->
+  group (map (fun p => tok_of (snd p)) l) = Some its -> Rc its (embed e) -> Forall digit_key (keys_of e).
+Proof.
+  intros Hl G R. pose proof (parsed_atoms_wf l its (embed e) Hl G R) as W. rewrite eatoms_embed_keys in W.
+  apply Forall_forall. intros k Hin. rewrite Forall_forall in W. exact (W (AKey k) (in_map _ _ _ Hin)).
+Qed.
+
+Theorem reported_text_parses_for_parsed a rho e n l its :
+  Forall (fun p : text * ptok => all_ws (fst p) = true /\ ptok_ok (snd p) = true) l ->
+  group (map (fun p => tok_of (snd p)) l) = Some its -> Rc its (embed e) ->
+  dom e = true -> valid e = true -> env_ok a rho e -> eval_rc rho e = Ok n ->
+  match rd a e with
+  | None => r_fcx (rc_result n) = None
+  | Some fe => exists toks t, r_fcx (rc_result n) = Some toks /\ denotes t fe /\ parse_cond (EvalRC.render toks) = Ok (flat (embed t))
+  end.
+Proof. intros Hl G R D V E H. apply (reported_text_parses a rho e n D V E H). now apply (parsed_keys_are_digit_keys l its e Hl G R). Qed.
